@@ -254,3 +254,63 @@ HARNESSES = [
                            "next_index[F]": "symbolic", "match_index[G], commit_index": "symbolic, true of the real logs"},
       outside=["message loss / reordering of several in-flight AppendEntries for one follower", "client futures across leader changes", "cluster runs in the engine (election timing)"]),
 ]
+
+
+# ------------------------------------------------------------------ stale (overtaken) AppendEntries
+def stale_append_lemma(sym, tier):
+    """Follower F already holds a prefix of the current leader's log (some of it committed).  An OLDER
+    AppendEntries of the same leader and term (shorter: it was sent before the newer entries existed and was
+    overtaken on the network) arrives now.  F must not lose entries that match the leader's log, and its
+    commit index / applied prefix must not move backwards."""
+    r = Result()
+    net, nodes = _cluster()
+    L, F, G = nodes
+    term = sym.int("term", 1, 2)
+    nl = _sym_log(sym, L, "L", 3, term)
+    if nl is None or nl < 2:
+        return r
+    L._current_term = term
+    L._state = RaftState.LEADER
+    L._voted_for = L.name
+    fl = 1 + sym.choice("F_len_minus_1", nl)            # F matches L up to fl
+    for i in range(fl):
+        e = L._log._entries[i]
+        F._log._entries.append(LogEntry(index=i + 1, term=e.term, command=e.command))
+    F._current_term = term
+    F._leader = L.name
+    fc = sym.int("F_commit", 0, fl)
+    F._log.commit_index = fc
+    F._last_applied = fc
+    for i in range(fc):
+        F._state_machine.applied.append(F._log._entries[i].command)
+    # the stale request: prev in [0, fl-1], carrying m >= 1 entries that end strictly before fl
+    prev = sym.int("stale_prev_index", 0, fl - 1)
+    m = sym.int("stale_entry_count", 1, 3)
+    if prev + m >= fl:
+        return r
+    entries = [{"index": e.index, "term": e.term, "command": e.command} for e in L._log._entries[prev:prev + m]]
+    prev_term = L._log._entries[prev - 1].term if prev > 0 else 0
+    before = [(e.index, e.term, e.command) for e in F._log._entries]
+    lc = sym.int("stale_leader_commit", 0, 3)
+    if lc > prev + m:
+        return r
+    msg = net.send(source=L, destination=F, event_type="RaftAppendEntries",
+                   payload={"term": term, "leader_id": L.name, "prev_log_index": prev, "prev_log_term": prev_term,
+                            "entries": entries, "leader_commit": lc}, daemon=True)
+    _deliver(F, msg)
+    after = [(e.index, e.term, e.command) for e in F._log._entries]
+    r.wit.add("stale_append_handled")
+    if after[: len(before)] != before:
+        r.bad("raft_follower_keeps_entries_matching_the_leader", {"before": [b[1] for b in before], "after": [a[1] for a in after], "prev": prev, "entries": len(entries)})
+    if F._log.commit_index < fc:
+        r.bad("raft_commit_index_never_decreases", fc, F._log.commit_index)
+    r.obs = {"before": len(before), "after": len(after), "commit": F._log.commit_index}
+    return r
+
+
+HARNESSES.append(
+    H(name="c11_stale_append_lemma", fn=stale_append_lemma, shape="I", budget=lambda tier: 900.0,
+      cubes=lambda tier: [{"L_len": a} for a in (2, 3)],
+      require=lambda tier: ["stale_append_handled"], classify=classify,
+      functions=["RaftNode._handle_append_entries", "Log.truncate_from/append/advance_commit"],
+      bounds=lambda tier: {"leader log": "2-3 entries", "follower": "matching prefix of symbolic length, symbolic commit index", "stale request": "symbolic prev index / entry count ending before the follower's last index"}))
